@@ -114,6 +114,13 @@ def generate(rng, i):
     return {"kind": "epi", "envs": [env], "clock0": "1999-01-01T00:00:00", "script": script, "prng": rng.randrange(2 ** 31)}
 
 
+_generate_base = generate
+
+
+def generate(rng, i):
+    return gen_epi.add_timesteps_later(_generate_base(rng, i), 0.2)
+
+
 def null_action(env):
     sp = env["space"]
     if sp["type"] == "discrete":
@@ -143,7 +150,7 @@ def walk_forward_stage(scenario, violate, probe):
         folds = tr.walk_forward(wf["train"], wf["test"], wf["sliding"])
         ft = folds.as_time()
     except Exception as e:
-        violate("unexpected_exception", "walk_forward({}) raised {!r}".format(wf, e), exc=type(e).__name__, where="walk_forward")
+        violate("unexpected_exception", "walk_forward({}) raised {!r}".format(wf, e), exc=core.exc_name(e), where="walk_forward")
         return None
     train, test = wf["train"], wf["test"]
     exp = []
